@@ -604,6 +604,9 @@ Proof. induction tr as [|ev tr IH]; [reflexivity|]. cbn [chk_C04_prefix]. rewrit
 Lemma C05_cut e g tr : chk_C05 (cut e g) tr = chk_C05 e tr.
 Proof. unfold chk_C05. apply all_rets_ext. intros t r d tl. reflexivity. Qed.
 
+Lemma C12_src_cut e g tr : chk_C12_src (cut e g) tr = chk_C12_src e tr.
+Proof. unfold chk_C12_src. apply all_rets_ext. intros t r d tl. reflexivity. Qed.
+
 Lemma C06_stop_cut e g tr : chk_C06_stop (cut e g) tr = chk_C06_stop e tr.
 Proof. unfold chk_C06_stop. apply all_rets_ext. intros t r d tl. reflexivity. Qed.
 
@@ -630,6 +633,7 @@ Proof.
   pose proof (iter_C05 e Hie progs Hp sched Hw) as H5.
   pose proof (iter_C06_stop e Hie progs Hp sched Hw) as H6.
   pose proof (iter_C12_shape e Hie progs Hp sched Hw) as H12.
+  pose proof (src_panic_ok e progs sched) as H12s.
   set (tr := c_trace (exec e (init progs) sched)) in *.
   set (tr' := c_trace (exec (cut e g) (init progs) sched)) in *.
   assert (Es : has_skip tr = has_skip tr') by (rewrite <- (has_skip_blur tr), Ht, has_skip_blur; reflexivity).
@@ -641,7 +645,7 @@ Proof.
   assert (E4 : chk_C04_order (cut e g) tr = chk_C04_order (cut e g) tr') by (rewrite <- (C04_order_blur _ tr), Ht, C04_order_blur; reflexivity).
   assert (E4' : chk_C04_prefix (cut e g) tr = chk_C04_prefix (cut e g) tr') by (rewrite <- (C04_prefix_blur _ tr), Ht, C04_prefix_blur; reflexivity).
   cbn [check_prop] in *. unfold chk_C06.
-  rewrite C05_cut, C06_stop_cut, E1, E1', E2, E3, E4, E4', Es, Ep, H5, H6, H12.
+  rewrite C05_cut, C06_stop_cut, C12_src_cut, E1, E1', E2, E3, E4, E4', Es, Ep, H5, H6, H12, H12s.
   apply andb_true_iff in H4. destruct H4 as [H4 H4p]. apply andb_true_iff in H4. destruct H4 as [H4n H4o].
   apply andb_true_iff in H1. destruct H1 as [H1n H1l].
   rewrite H1n, H1l, H2, H3, H4o, H4p. repeat split; reflexivity.
